@@ -247,7 +247,7 @@ PROPS = {
     "C19": dict(
         module="FastQr.Props.C19", level="fault_enumeration",
         key=lambda t: (t[1], t[3], t[4], t[6] if len(t) > 6 else "", min(int(t[2]), 3) if t[1] == "5" else 0, int(t[2]) % 5 if t[1] == "5" else 0),
-        rule="cases: real SvgBuilder::to_file and ImageBuilder::to_file, each in a child process with one injected fault: none, "
+        rule="cases: real SvgBuilder::to_file (default options, and `svgu`: options set incl. an image reference of multi-byte characters, so byte length != character count) and ImageBuilder::to_file, each in a child process with one injected fault: none, "
              "missing directory, path is a directory, unwritable directory (uid dropped), /dev/full, file-size limit of k bytes "
              "(k = 0, 1, 2, half, len-1, len, len+1, page boundaries, random; thorough: every 7th offset up to 600 + 200 random, 3 "
              "sizes) giving a short write then EFBIG, existing unwritable file, name too long, no file descriptors, symlink "
